@@ -764,6 +764,11 @@ Again:
 		// if err == io.EOF {
 		// 	err = io.ErrUnexpectedEOF
 		// }
+		// An EOF in the middle of a record header, however, is a
+		// truncated record and never an orderly close.
+		if err == io.EOF && len(b.data) > 0 {
+			err = io.ErrUnexpectedEOF
+		}
 		if e, ok := err.(net.Error); !ok || !e.Temporary() {
 			c.in.setErrorLocked(err)
 		}
